@@ -529,6 +529,15 @@ func (ft *ftr) call(steps *[]step, ins *ssa.Call, cur map[*cell]ex) error {
 				return ft.refuse(ins, "argument %d has an unsupported kind", s.param)
 			}
 			args = append(args, v.e)
+		case sSliceLen:
+			v, err := ft.valOf(ins, common.Args[s.param])
+			if err != nil {
+				return err
+			}
+			if v.k != kSlice {
+				return ft.refuse(ins, "argument %d is not a slice whose length the translator knows", s.param)
+			}
+			args = append(args, v.e)
 		case sBig:
 			v, err := ft.valOf(ins, common.Args[s.param])
 			if err != nil {
@@ -701,7 +710,7 @@ func (ft *ftr) builtin(steps *[]step, ins *ssa.Call, b *ssa.Builtin) error {
 		if v.k == kSlice {
 			return ft.bind(steps, ins, kScalar, v.e) // the cell holds the length
 		}
-		return ft.refuse(ins, "len of a value that is not a slice-typed struct field")
+		return ft.refuse(ins, "len of a value that is not a slice parameter or a slice-typed struct field")
 	}
 	return ft.refuse(ins, "builtin %s is outside the grammar", b.Name())
 }
